@@ -266,3 +266,16 @@ package streams
 //@   modifies down.*, up.*, G_closes(down), G_isclosed(down), G_closes(up), G_isclosed(up)
 //@   ensures !old(reportsClosed(down)) ==> G_closes(down) == old(G_closes(down)) + 1     :downstream_closed
 //@   ensures !old(reportsClosed(up)) ==> G_closes(up) == old(G_closes(up)) + 1           :upstream_closed
+
+// ---- BufferedInputConnection (C04, C06): the buffered reader of a connection wrapper is set once
+//@ func init
+//@   property C04, C06
+//@   safe
+//@ property C04, C06
+//@ immutable BufferedInputConnection.Reader
+
+//@ func NewBufferedInputConnection
+//@   property C04, C06
+//@   safe
+//@   pure
+//@   ensures result != nil && spec_fresh(result) && result.Reader != nil && result.Connection != nil    :wrapper_complete
